@@ -44,9 +44,10 @@ def Env.starter (E : Env) (r : Rune) : Bool :=
 
 /-! ### S1b: per-token and per-line processing -/
 
-/-- `strings.ReplaceAll(in, "https", "http")`: non-overlapping, left to right. -/
+/-- `strings.ReplaceAll(in, "https://", "http://")`: non-overlapping, left to right. -/
 def replaceHttps : List Rune → List Rune
-  | 104 :: 116 :: 116 :: 112 :: 115 :: rest => 104 :: 116 :: 116 :: 112 :: replaceHttps rest
+  | 104 :: 116 :: 116 :: 112 :: 115 :: 58 :: 47 :: 47 :: rest =>
+    104 :: 116 :: 116 :: 112 :: 58 :: 47 :: 47 :: replaceHttps rest
   | c :: rest => c :: replaceHttps rest
   | [] => []
 
@@ -60,7 +61,7 @@ def header (E : Env) (w : Word) : Bool :=
   | some e =>
     let p := w.dropLast
     if e = 46 ∨ e = 58 ∨ e = 41 then   -- '.', ':', ')'
-      if E.listMarker p ∧ e ≠ 41 then true
+      if E.listMarker (p.map E.toLower) ∧ e ≠ 41 then true
       else p.all (fun r => E.isDigit r || r = 46)
     else false
 
